@@ -92,8 +92,21 @@ def r7_1(F, R):
                    "fi_tag (-1, leave when negative), honour else_tag/or_tag only at depth 0, and leave the loop no other way")
     names = ["false_case", "if_case_primitive_fn", "or_primitive_fn", "else_primitive_fn"]
     n = 0
+    from .common import fn_or_helper
+
+    def has_skip_loop(g):
+        return any(g.blocks[b]["t"]["k"] == "call" and (callee_generic(g.blocks[b]["t"]) or "").endswith("TokenStream::next_or_err")
+                   for hdr, body in natural_loops(g) for b in body)
+    done = set()
     for nm in names:
         fn = _one(F, MOD + nm)
+        # the loop may have been extracted into (or shared through) a helper of the same file
+        fn = fn_or_helper(F, fn, has_skip_loop) or fn
+        if fn.id in done:
+            continue
+        done.add(fn.id)
+        if fn.name != MOD + nm and not strip_generics(fn.name).endswith(nm):
+            nm = strip_generics(fn.name).split("::")[-1]
         flow = Flow(fn)
         tests = tag_tests(fn, flow)
         loops = natural_loops(fn)
@@ -204,7 +217,7 @@ def r7_1(F, R):
                 R.violation("R7.1", inst + "/" + pr.split(" ")[0] + pr.split(" ")[1], "%s: %s" % (fn.name, pr), loc)
         else:
             R.ok("R7.1", inst, "tags tested in loop: %s; counter _%d" % (sorted(by_tag), counters[0]), loc, how="sibling-shape")
-    R.floor("R7.1", "skip loops", n, 4)
+    R.floor("R7.1", "skip loops", n, 2)
 
 
 def _opt_model(variant):
